@@ -97,8 +97,7 @@ class GradOracle:
     # the differentiated objective
     def F(self):
         m = self.model
-        Xb, Ab = self.h.cur_batch
-        ids = self.h.cur_ids
+        Xb, Ab, ids = self.h.resolve()
         P = m._infer(Xb, retain=False)
         s = ref_gemini(self.spec[0], self.spec[1], P, Ab)
         if self.deco:
@@ -148,8 +147,8 @@ class GradOracle:
         if not (self.judge_rs.rand() < self.p_judge):
             return
         m = self.model
-        Xb, Ab = self.h.cur_batch
-        if self.deco and any(i < 0 for i in self.h.cur_ids):
+        Xb, Ab, ids_now = self.h.resolve()
+        if self.deco and any(i < 0 for i in ids_now):
             res.probe("steps_with_undecidable_duplicates")
             return
         P = m._infer(Xb, retain=False)
